@@ -15,7 +15,8 @@ from vp import symcal
 P = json.loads(os.environ.get("VP_PARAMS", "{}"))
 ORDER = P.get("order", 0)
 SCOPES = [config.TagScope.DEFAULT, config.TagScope.GLOBAL, config.TagScope.BRANCH]
-PAT = "MAJOR.MINOR[.PATCH]"
+LEGACY = P.get("legacy", False)
+PAT = "{semver}" if LEGACY else "MAJOR.MINOR[.PATCH]"
 NO_IMPOSSIBLE = P.get("exclude_impossible_dates", False)   # known-finding class S7
 ONLY_IMPOSSIBLE = P.get("only_impossible_dates", False)
 
@@ -23,13 +24,15 @@ ONLY_IMPOSSIBLE = P.get("only_impossible_dates", False)
 def _cfg(cur, scope):
     return config.Config(
         current_version=cur, version_pattern=PAT, pep440_version="CFG-PEP440", commit_message="m", tag_message="t",
-        tag_scope=scope, pre_commit_hook="", post_commit_hook="", commit=True, tag=True, push=False, is_new_pattern=True,
+        tag_scope=scope, pre_commit_hook="", post_commit_hook="", commit=True, tag=True, push=False, is_new_pattern=not LEGACY,
         file_patterns={},
     )
 
 
 def _render(a, b, c):
     s = str(a) + "." + str(b)
+    if LEGACY:
+        return s + "." + str(c)
     if c != 0:
         s += "." + str(c)
     return s
@@ -54,7 +57,7 @@ def select_tag(a0: int, b0: int, c0: int, a1: int, b1: int, c1: int, a2: int, b2
     """
     cur = _render(a0, b0, c0)
     t1 = _render(a1, b1, c1)
-    t2 = str(a2) + "." + str(b2) + (".0" if explicit_zero else "")     # PEP 440-equal spelling of a2.b2
+    t2 = str(a2) + "." + str(b2) + (".0" if (explicit_zero or LEGACY) else "")     # PEP 440-equal spelling of a2.b2
     tags = [[t1, t2], [t2, t1]][ORDER]
     if junk:
         tags = ["release-candidate", "v" + t1] + tags + ["2021.02.30x", ""]
@@ -90,8 +93,8 @@ def select_tag(a0: int, b0: int, c0: int, a1: int, b1: int, c1: int, a2: int, b2
     if rest != cfg:
         return False
     bk = best_key
-    want_pep = str(bk[0]) + "." + str(bk[1]) + ("." + str(bk[2]) if (got.current_version is t1 and c1 != 0) else
-                                                 (".0" if (got.current_version is t2 and explicit_zero) else ""))
+    want_pep = str(bk[0]) + "." + str(bk[1]) + ("." + str(bk[2]) if (got.current_version is t1 and (c1 != 0 or LEGACY)) else
+                                                 (".0" if (got.current_version is t2 and (explicit_zero or LEGACY)) else ""))
     return got.pep440_version == want_pep
 
 
